@@ -268,6 +268,30 @@ func runS(dir string, sc Scenario, rec *Rec) {
 		w.WriteString("4242 Accepted password for bob from 10.0.0.1 po")
 		rec.Reached = waitFor(time.Second, func() bool { return drained(w) }) && len(done) == 0
 		time.Sleep(10 * time.Millisecond)
+	case "inflightwrite":
+		// the worker is inside the event write (a stalled output) when its context is cancelled: it returns when the
+		// record in hand is done - nothing of it reaches the output after the return
+		enc.armed.Store(true)
+		w.WriteString("4243 Failed password for bob from 10.0.0.1 port 22 ssh2\n")
+		time.Sleep(40 * time.Millisecond)
+		rec.Reached = len(done) == 0
+		before := time.Now()
+		cancel()
+		select {
+		case err := <-done:
+			enc.returned.Store(true)
+			rec.Returned = true
+			rec.Ms = int(time.Since(before).Milliseconds())
+			rec.ErrCtx = err != nil
+			if err != nil {
+				rec.Err = err.Error()
+			}
+		case <-time.After(bound):
+			rec.Ms = int(bound.Milliseconds())
+		}
+		time.Sleep(1200 * time.Millisecond)
+		rec.Late = int(enc.after.Load())
+		return
 	case "writefail":
 		// the event of an accepted login cannot be written: the WORKER (ingester chain included) ends with that error
 		enc.fail.Store(true)
@@ -390,6 +414,38 @@ func runP(sc Scenario, rec *Rec) {
 			}()
 		}
 		rec.Reached = waitFor(2*time.Second, func() bool { return enc.n.Load() > 100 }) && len(done) == 0
+	case "unboundcancel":
+		// a session whose login never came holds events when the context is cancelled: nothing is written for it, not
+		// even on the way out (C04)
+		audits <- "type=LOGIN msg=audit(1668460768.100:29999): pid=25007 uid=0 old-auid=4294967295 auid=1000 tty=(none) old-ses=4294967295 ses=499 res=1"
+		audits <- auditLine(1)[:len(auditLine(1))-1]
+		audits <- auditLine(2)[:len(auditLine(2))-1]
+		time.Sleep(40 * time.Millisecond)
+		rec.Reached = len(done) == 0 && enc.n.Load() == 0
+		finish(rec, cancel, done, nil)
+		time.Sleep(300 * time.Millisecond)
+		rec.Login = "quiet"
+		if enc.n.Load() > 0 {
+			rec.Login = "leak"
+		}
+		return
+	case "inflightfail":
+		// two events still being assembled and an output that has started to fail: the flush on the way out reports
+		// two errors with nobody left to receive them - Read still returns
+		evt := auditevent.NewAuditEvent("UserLogin", auditevent.EventSource{Type: "IP", Value: "10.0.0.1"}, "succeeded",
+			map[string]string{"loggedAs": "u", "userID": "x", "pid": "25007"}, "sshd")
+		select {
+		case logins <- common.RemoteUserLogin{Source: evt, PID: 25007, CredUserID: "x"}:
+		case <-time.After(time.Second):
+		}
+		audits <- "type=LOGIN msg=audit(1668460768.100:29999): pid=25007 uid=0 old-auid=4294967295 auid=1000 tty=(none) old-ses=4294967295 ses=499 res=1"
+		rec.Reached = waitFor(time.Second, func() bool { return enc.n.Load() == 1 })
+		for k := 0; k < 3; k++ {
+			audits <- fmt.Sprintf("type=SYSCALL msg=audit(1668460769.10%d:3010%d): arch=c000003e syscall=59 success=yes exit=0 a0=1 a1=2 a2=3 a3=4 items=0 ppid=1 pid=25010 auid=1000 uid=1000 gid=1000 euid=1000 suid=1000 fsuid=1000 egid=1000 sgid=1000 fsgid=1000 tty=pts3 ses=499 comm=\"x\" exe=\"/bin/x\" key=\"k\"", k, k)
+		}
+		time.Sleep(40 * time.Millisecond)
+		rec.Reached = rec.Reached && len(done) == 0
+		enc.fail.Store(true)
 	case "inflight":
 		// a correlated session with an event still being assembled (SYSCALL without its PROCTITLE) when the context
 		// is cancelled: what Read flushes on its way out is written BEFORE it returns
